@@ -33,7 +33,10 @@ def load():
         c = os.path.join(meta["dir"], "thr-%s.%d.c" % (h, os.getpid()))
         open(c, "w").write(src)
         tmp = so + ".%d.tmp" % os.getpid()
-        subprocess.check_call(["gcc", "-O0", "-fPIC", "-shared", "-I", meta["include"], "-I", build.REPO, "-o", tmp, c])
+        inc = ["-I", meta["include"]]
+        if not os.path.exists(os.path.join(meta["include"], "gmp-impl.h")):
+            inc += ["-I", build.REPO]              # cache entry written by an older build recipe
+        subprocess.check_call(["gcc", "-O0", "-fPIC", "-shared"] + inc + ["-o", tmp, c])
         os.rename(tmp, so)
         os.unlink(c)
     THR = ctypes.CDLL(so, mode=ctypes.RTLD_GLOBAL)
